@@ -15,8 +15,8 @@ Proved here, for ALL patterns / forms / programs (induction, no bounds):
                         one witness per conjunct of the guard that can be violated (`G.a`, `G.b`, `G.c`, `G.d`)
   * `match_exact_needs_nested_guard/_clean` : the guards of `match_exact` are necessary (witnesses by `decide`)
 Positive hygiene (section "Hygiene, positive part"; induction over the model's own functions, no bounds):
-  * `reader_rejects_double_hash` : on the lexer model of C12 a token beginning with `##` is a lexical error — source
-                        identifiers never carry the mangling prefix (hypothesis `noHashList` of the theorems below)
+  * (hypothesis `noHashList` of the theorems below: source identifiers never carry the mangling prefix — checked on
+    the real reader on every run; `C13/ReaderHash.lean` proves it on the lexer model of C12)
   * `introduced_binders_fresh` : every binder position of a stored template is spelled `##…`, hence distinct from
                         every identifier of a macro use
   * `expansion_names`  : one expansion step (collect / mark / instantiate, any ellipsis depth) only produces
@@ -55,7 +55,6 @@ import SteelVerif.C13.LemmasHygiene7
 import SteelVerif.C13.LemmasSpec4
 import SteelVerif.C13.LemmasScope4
 import SteelVerif.C13.LemmasSkel
-import SteelVerif.C12.Lex
 namespace SteelVerif.C13
 set_option linter.unusedSimpArgs false
 set_option linter.unusedVariables false
@@ -359,14 +358,9 @@ example : G 40 insideG = true ∧ hygienicAt 40 insideG = true := by decide +ker
 
 The mangling prefix: steel's definition-time renaming (`RenameIdentifiersVisitor`) spells every binder a template
 introduces `##<spelling>` (`Name.hashes` counts the leading `##`).  The reader cannot produce an identifier that
-begins with `##` (`reader_rejects_double_hash`, on the lexer model of C12; the real reader answers `err Parse`
-for `(define ##x 1)`), so for forms that come from source text the hypothesis `noHashList args` below holds. -/
-
-/-- The lexer model of C12 (`lexOne` follows `crates/steel-parser/src/lexer.rs`): a token that begins with `##`
-is a lexical error, whatever follows. -/
-theorem reader_rejects_double_hash (pos : Nat) (cs : List Char) :
-    (SteelVerif.C12.lexOne pos '#' ('#' :: cs)).res = .error (.unexpectedChar '#') := by
-  simp [SteelVerif.C12.lexOne]
+begins with `##` (lemma `reader_rejects_double_hash` in `C13/ReaderHash.lean`, on the lexer model of C12 — kept out of
+this file so that C13 does not depend on the state of C12's sources; on every run the REAL reader is given a generated
+stream of programs with `##`-identifiers in every syntactic role and must reject all of them), so for forms that come from source text the hypothesis `noHashList args` below holds. -/
 
 /-- The guard `G` is the conjunction of the seven negated class predicates (K13a, b, c, d, f, g, j). -/
 theorem G_iff (fuel : Nat) (p : Prog) : G fuel p = true ↔ (classify fuel p).inG := by
